@@ -32,16 +32,17 @@ def prepare(ctx, props_file):
 def run_shards(ctx, cases, label, size=12):
     shards = [("%s_%03d" % (label, i // size), deps.coq_shard(cases[i:i + size])) for i in range(0, len(cases), size)]
     res = ctx.coq_eval_many(shards, timeout=900)
-    bad = {"edges": [], "cp": [], "lcd": []}
+    bad = {"edges": [], "cp": [], "lcd": [], "roles": []}
     errs = []
     for si, (ok, out) in enumerate(res):
         if not ok:
             errs.append("shard %d failed: %s" % (si, out[0][-1200:]))
             continue
-        e, c, l, n = out[0].split("|")
-        for name, s in (("edges", e), ("cp", c), ("lcd", l)):
+        e, c, l, ro, n = out[0].split("|")
+        for name, s in (("edges", e), ("cp", c), ("lcd", l), ("roles", ro)):
             bad[name] += [si * size + int(x) for x in s.split(",") if x]
-    for name, what in (("edges", "dependency edges and weights"), ("cp", "critical-path certificate and optimum"), ("lcd", "loop-carried dependency entries")):
+    for name, what in (("edges", "dependency edges and weights"), ("cp", "critical-path certificate and optimum"), ("lcd", "loop-carried dependency entries"),
+                       ("roles", "role assignment: source / destination / src_dst sets of every line")):
         detail = ""
         if bad[name] or errs:
             detail = "\n".join(errs[:2] + ["case %d: %s" % (i, cases[i]["text"][:600]) for i in bad[name][:3]])
